@@ -22,17 +22,36 @@ class ExprFamily(Family):
 
     def gen(self, rng, tier, n):
         g = X.Gen(rng)
-        return self.genf(g, rng, tier, n)
+        for case in self.genf(g, rng, tier, n):
+            if rng.random() < 0.12 and "env" not in case:
+                # the expression is ALSO part of a larger expression (sharing the very objects), and that
+                # one is evaluated first: composing or evaluating must not change what a
+                # sub-expression answers afterwards (the model only sees the sub-expression)
+                t = case["tree"]
+                other = g.tree(rng.choice([0, 1]), ["or", "and", "sub"])
+                j = rng.random()
+                if j < 0.45:
+                    ctx = {"op": rng.choice(["or", "and", "sub"]), "l": t, "r": other}
+                elif j < 0.6:
+                    ctx = {"op": rng.choice(["or", "and"]), "l": other, "r": t}
+                elif j < 0.8:
+                    ctx = {"op": "or", "l": {"op": "and", "l": t, "r": other}, "r": {"op": "and", "l": t, "r": g.leaf()}}
+                else:
+                    ctx = t                                   # the expression itself, evaluated twice
+                a, b = g.window()
+                case = dict(case, ctx=ctx, warm=[(a, b, False)] + ([(a, b if b is not None else 9, True)] if rng.random() < 0.3 else []))
+            yield case
 
     def run_impl(self, case):
         env = case.get("env")
         t = case["tree"]
+        ctx, warm = case.get("ctx"), case.get("warm")
         if self.kind == "f":
-            outs = [X.run_fetch(t, a, b, rev, env) for (a, b, rev) in case["q"]]
+            outs = [X.run_fetch(t, a, b, rev, env, ctx, warm) for (a, b, rev) in case["q"]]
         elif self.kind == "o":
-            outs = [X.run_overlapping(t, q[0], env) for q in case["q"]]
+            outs = [X.run_overlapping(t, q[0], env, ctx, warm) for q in case["q"]]
         else:
-            outs = [X.run_slice(t, a, b, rev, env) for (a, b, rev) in case["q"]]
+            outs = [X.run_slice(t, a, b, rev, env, ctx, warm) for (a, b, rev) in case["q"]]
         for o in outs:
             if isinstance(o, dict):
                 return o
@@ -52,11 +71,17 @@ class ExprFamily(Family):
         return X.coq_pcase(t, case["q"][0], obs[0], case["q"][1], obs[1], env)
 
     def shrink_candidates(self, case):
+        if case.get("ctx") is not None:
+            yield {k: v for k, v in case.items() if k not in ("ctx", "warm")}     # without the context
+            return          # (the context embeds the tree: shrinking one without the other would unshare them)
         for t2 in X.shrink_tree(case["tree"]):
             yield dict(case, tree=t2)
 
     def describe(self, case):
-        return f"{X.describe(case['tree'])}  queries={case['q']}"
+        d = f"{X.describe(case['tree'])}  queries={case['q']}"
+        if case.get("ctx") is not None:
+            d += f"  [after evaluating, with shared objects, {X.describe(case['ctx'])} over {case['warm']}]"
+        return d
 
     def model_output(self, case):
         outs = []
@@ -76,6 +101,8 @@ class ExprFamily(Family):
         return any(len(o) > 0 for o in obs)
 
     def distribution(self, case, dist):
+        if case.get("ctx") is not None:
+            dist["evaluated_inside_a_larger_expression_first"] += 1
         for n_ in walk(case["tree"]):
             dist["op_" + n_["op"]] += 1
         if self.kind != "o":
